@@ -16,7 +16,7 @@ import (
 
 func init() { register(&Check{ID: "C08", Run: runC08}) }
 
-const c08Bodies = 10
+const c08Bodies = 12
 
 func c08Body(b int, e string) string {
 	switch b {
@@ -34,6 +34,10 @@ func c08Body(b int, e string) string {
 		return "applymovement(1, moves(m_" + e + " u))\n"
 	case 6:
 		return "poryswitch(PV) {\nSEL: c_" + e + "\n_: d_" + e + "\n}\n"
+	case 10: // the same characters as a plain text in every entry that uses this body (shared across inline scripts) ...
+		return "msgbox(\"same text\")\n"
+	case 11: // ... and as a braille text: same characters, another string type, never the same datum
+		return "msgbox(braille\"same text\")\nmsgbox(\"own " + e + "\")\n"
 	case 9: // several inline data of each kind in one inline script
 		return "applymovement(1, moves(m_" + e + " u))\nmsgbox(\"one " + e + "\")\napplymovement(2, moves(n_" + e + " d))\nmsgbox(\"two " + e + "\")\n"
 	case 8: // arguments with operator characters the assembler understands (incl. the printf verb character)
@@ -229,9 +233,9 @@ func runC08(tier string) int {
 	r.Set("entry_options", nOpts)
 	r.Set("max_table_length", maxTab)
 	r.Assume("an inline body must be emitted exactly like 'script(local) <name> { body }' (differential; C01 decides the behaviour of script statements)",
-		"inline names are <map>_<TYPE> and <map>_<TYPE>_<index>; texts inside bodies are distinct per entry so that no label is shared across entries")
+		"inline names are <map>_<TYPE> and <map>_<TYPE>_<index>; hoisted labels are compared by the data they denote, so a text shared between inline scripts may be owned by either")
 	return r.Finish(r.Get("evaluations"), r.Get("nontrivial"),
-		"every mapscripts statement with <= N entries over {plain, inline with 10 body kinds incl. several moves() lists and texts in one inline script, arguments that contain '%', table with <= T entries over plain / inline entries with simple and multi-token var/value (the multi-token ones mention constants)} x scope {none, global, local} x optimize on/off, incl. the empty statement and empty tables; plus tables with K entries and headers with K entries for every K up to the bound in the coverage; each statement also compiled with every dispensable white space removed; header, table and inline-script blocks are compared with the generator's expectation and with the standalone compilation of the same body; non-trivial = the statement has a table and an inline entry")
+		"every mapscripts statement with <= N entries over {plain, inline with 12 body kinds incl. several moves() lists and texts in one inline script and the same characters as a plain and as a braille text in different inline scripts, arguments that contain '%', table with <= T entries over plain / inline entries with simple and multi-token var/value (the multi-token ones mention constants)} x scope {none, global, local} x optimize on/off, incl. the empty statement and empty tables; plus tables with K entries and headers with K entries for every K up to the bound in the coverage; each statement also compiled with every dispensable white space removed; header, table and inline-script blocks are compared with the generator's expectation and with the standalone compilation of the same body; non-trivial = the statement has a table and an inline entry")
 }
 
 func c08Eval(r *harness.Run, entries []c08Entry, scope string, opt bool, sw map[string]string) {
@@ -364,6 +368,8 @@ func c08Eval(r *harness.Run, entries []c08Entry, scope string, opt bool, sw map[
 			fail("C08:standalone", err.Error())
 			continue
 		}
+		// hoisted labels are replaced by the data they denote: which script owns a shared text is not part of the comparison
+		blk, want = c08Denote(res.Out, blk), c08DenoteStandalone(in.name, in.body, opt, sw, want)
 		if blk != want {
 			// Not byte-identical: the property only asks for the same behaviour, so fall back to the
 			// product exploration of the two blocks (same entry label, all game states).
@@ -394,4 +400,33 @@ func c08Eval(r *harness.Run, entries []c08Entry, scope string, opt bool, sw map[
 	if r.WantSample() && hasTable && hasInline && len(entries) == 3 {
 		r.Sample(map[string]interface{}{"source": src, "optimize": opt, "header": wantHead})
 	}
+}
+
+// c08Denote replaces every hoisted label in blk by the directive lines it denotes in out.
+func c08Denote(out, blk string) string {
+	return hoistedRe.ReplaceAllStringFunc(blk, func(label string) string {
+		b, ok := blockAfter(out, label)
+		if !ok || len(b) < 2 {
+			return "<hoisted: undefined " + label + ">"
+		}
+		var data []string
+		for _, l := range b[1:] {
+			data = append(data, strings.TrimSpace(l))
+		}
+		return "<hoisted: " + strings.Join(data, " | ") + ">"
+	})
+}
+
+var c08StandaloneOut sync.Map
+
+// c08DenoteStandalone does the same for the standalone compilation of the body (whose full output is needed for the data).
+func c08DenoteStandalone(name, body string, opt bool, sw map[string]string, blk string) string {
+	key := fmt.Sprintf("%s|%v|%s", name, opt, body)
+	v, ok := c08StandaloneOut.Load(key)
+	if !ok {
+		res := comp.Compile("script(local) "+name+" {\n"+body+"}\n", comp.Opts{Optimize: opt, Switches: sw})
+		v = res.Out
+		c08StandaloneOut.Store(key, v)
+	}
+	return c08Denote(v.(string), blk)
 }
